@@ -200,6 +200,19 @@ class Rec:
         self.batch_event()
         return self.inds
 
+    def rebatch(self, inds):
+        """start a NEW recording on existing design objects (their current states are the initial mix): what happened to them before --
+        e.g. an evaluation of a larger batch that was aborted by an exception -- is history the framework has to cope with"""
+        from artap.individual import Individual
+        self.inds = list(inds)
+        self.events = []
+        self.design = {id(ind): i + 1 for i, ind in enumerate(self.inds)}
+        self.pre = [ind.state == Individual.State.EVALUATED for ind in self.inds]
+        self.calls, self.attempt, self.callno = {}, {}, 0
+        self.returned = {}
+        self.batch_event()
+        return self.inds
+
     def batch_event(self):
         with self.lock:
             self.events.append({"ev": "batch", "mode": self.mode, "store": bool(self.db),
@@ -329,7 +342,10 @@ def quiesce(rec, timeout=10.0):
 def evaluate_batch(rec, workers=1, rounds=1, on_exception=None):
     """Algorithm.evaluate on the recorded batch; returns the exception seen by the caller (or None)."""
     from artap.algorithm import DummyAlgorithm
-    alg = DummyAlgorithm(rec.problem)
+    # one algorithm object per recorder: repeated evaluate() calls on a problem come from the same algorithm
+    alg = getattr(rec, "_alg", None)
+    if alg is None:
+        alg = rec._alg = DummyAlgorithm(rec.problem)
     alg.options['max_processes'] = workers
     alg.options['verbose_level'] = 0
     exc = None
